@@ -14,7 +14,7 @@ def run():
     pv, pu, pe, ppart, passumed = proof_subobligations(PROP, ['contracts.c14_colors'], ['ak.color'])
     b = Bounded(PROP, 'harness.c14')
     driver.run(b)
-    s_descr, n_vp, c_grid, c_names = driver.describe(b.tier)
+    s_descr, n_vp, c_grid, c_names, n_m = driver.describe(b.tier)
     cov = b.coverage(
         rule="description sets rendered from a feature grid (parent in {none, unknown id, built-in id, every earlier "
              "id} x fg/bg in {unset, '-', name, int code, rgb text, gray} x modifiers in {none, bold, no_bold, "
@@ -30,7 +30,15 @@ def run():
              f"all-in-configuration history and every 4th history). Space C (conflicts): an id from {c_names} "
              f"described twice ({c_grid} grid entries, d_a != d_b) or once against its built-in default, with and "
              "without a child, every history that keeps the two descriptions in different dicts, compared with the "
-             "same history without the losing registrations. evaluations = histories executed; distinct = "
+             "same history without the losing registrations. Space M (modifier table): every keyword of the "
+             "documented table (bold, faint, underline, blink, crossed and their no_ forms), alone, in pairs of "
+             "different effects and in whole combinations, on top of a parent P.Q that switches all effects on / "
+             "all off / none / a mix (or that carries one keyword, all 10 x 10), with a grandchild that inherits or "
+             f"switches back, and in a single description without / with unknown / with built-in parent: {n_m} "
+             "sets, every history, also with no_color=True. Ids of the 'P.T.B', 'P.T.C.N', 'P.A', 'M' naming are "
+             "groups inside groups in the nested form ({'P': {'T': {'B': .., 'C': {'N': ..}}, 'A': ..}}); every "
+             "history of those sets is run twice, with every dict (initial configuration, SYNTAX_DEFAULTS of "
+             "components) in either form. evaluations = histories executed; distinct = "
              "description sets; non-trivial = a set in which some id has a registered parent (chain length >= 2), "
              "every set being run with >= 1 later registration",
         exhaustive=True, extra=ppart)
